@@ -728,4 +728,4 @@ def shrink(case, fails):
     return encode(probes, ops)
 
 
-READY = False
+READY = True
